@@ -164,6 +164,29 @@ func init() {
 				runAndRead(ho, ro, id, sameSchemaCase([]string{"batch", "stream"}[sz%2], "", 5, docs), false)
 			}
 		}
+		// 1c. chunks whose delta stream ENDS in a long run of zeros (the run's count is the payload's last varint: one
+		// byte up to 127 further zeros, two bytes from 128 on): a varying metric followed by a constant one over k+1
+		// samples, and two varying metrics followed by thirty constant ones in chunks of ten
+		for i, k := range []int{126, 127, 128, 129, 130, 255, 256, 257} {
+			var docs [][]elem
+			for j := 0; j <= k; j++ {
+				docs = append(docs, []elem{{"a", &val{T: 0x12, I: int64(j * j)}}, {"z", &val{T: 0x12, I: 7}}})
+			}
+			id++
+			runAndRead(ho, ro, id, sameSchemaCase([]string{"batch", "stream", "base", "dyn", "sdyn"}[i%5], "", 300, docs), false)
+		}
+		for _, kind := range []string{"batch", "stream"} {
+			var docs [][]elem
+			for j := 0; j < 20; j++ {
+				d := []elem{{"a", &val{T: 0x12, I: int64(j)}}, {"b", &val{T: 0x10, I: int64(3 * j)}}}
+				for c := 0; c < 30; c++ {
+					d = append(d, elem{fmt.Sprintf("c%02d", c), &val{T: 0x12, I: int64(c)}})
+				}
+				docs = append(docs, d)
+			}
+			id++
+			runAndRead(ho, ro, id, sameSchemaCase(kind, "", 10, docs), false)
+		}
 		// 2. exhaustive delta matrices with entries in {0,+1,-1}
 		type ms struct{ m, s int }
 		shapes := []ms{{1, 1}, {1, 2}, {2, 1}, {2, 2}, {1, 3}, {3, 1}, {2, 3}}
